@@ -183,6 +183,14 @@ func c16Txs() []c16Tx {
 		cs.Note = "ctxwrite " + r.String()
 		out = append(out, c16Tx{Name: cs.Note, Case: cs})
 	}
+	// value transfers at the top level and in nested calls
+	vt := asm.New().Push(0).Push(0).Push(0).Push(0).Push(5).PushAddr(gen.EOA).Push(30000).Op(asm.CALL, asm.POP)
+	vt.Push(0).Push(0).Push(0).Push(0).Push(3).PushAddr(gen.CWrite).Push(60000).Op(asm.CALL, asm.POP)
+	vt.PushAddr(gen.EOA).Op(asm.BALANCE).Push(0).Op(asm.MSTORE).Push(32).Push(0).Op(asm.RETURN)
+	cs = gen.StdCase(f, vt.Bytes(), "call", 300000)
+	cs.Value = world.Big(7)
+	cs.Note = "value transfers"
+	out = append(out, c16Tx{Name: cs.Note, Case: cs})
 	// Cancun: transient storage and MCOPY
 	cn := asm.New().Push(5).Push(1).Op(asm.TSTORE).Push(1).Op(asm.TLOAD).Push(0).Op(asm.MSTORE).Push(32).Push(0).Push(64).Op(asm.MCOPY).Push(96).Push(0).Op(asm.RETURN).Bytes()
 	cs = gen.StdCase(world.Cancun, cn, "call", 100000)
@@ -360,7 +368,7 @@ func init() {
 		ID:        "C16",
 		Level:     "model_checking",
 		Technique: "exhaustive enumeration of Go map-iteration start offsets (a seam put into the runtime by a build overlay; every `range` over a map executed by the code under test is a choice point, deviation-bounded) during execution and during every recorder query; exhaustive enumeration of transaction histories (all sequences up to length 3 over a transaction set touching every package-level value) and of two-EVM invocation interleavings; canonical serialisations with lists in returned order must be identical",
-		Rule: "(a) map order: recorder transactions creating 2-8 children / index keys / change indices per node (one with members packed four to a storage slot); all executions with <= 1 non-zero iteration offset during the EVM execution and all with <= 2 during the queries (Children, ChildrenIndices, IndicesOfChanges, Changes, ChildrenOf, balances, call tree); serialisation identical across all offset vectors. (b) histories: T = 27 transactions (recorder, reference journals over empty/short/long strings, arithmetic over the shared constants, precompiles + CREATE + SELFDESTRUCT + LOG, extra-EIP and plain London tables, five repricing EIPs each next to the plain fork, Cancun additions); every sequence over T of length <= L in one process, each element on a fresh EVM and equal pre-state: every transaction has exactly one serialisation across all contexts. (c) isolation: two live EVMs, 2 invocations each, all 6 interleavings: each EVM's views equal its solo views. non-trivial = distinct executions in which a map with >= 2 entries was iterated with a non-zero offset, or histories of length >= 2",
+		Rule: "(a) map order: recorder transactions creating 2-8 children / index keys / change indices per node (one with members packed four to a storage slot); all executions with <= 1 non-zero iteration offset during the EVM execution and all with <= 2 during the queries (Children, ChildrenIndices, IndicesOfChanges, Changes, ChildrenOf, balances, call tree); serialisation identical across all offset vectors. (b) histories: T = 28 transactions (recorder, reference journals over empty/short/long strings, arithmetic over the shared constants, precompiles + CREATE + SELFDESTRUCT + LOG, extra-EIP and plain London tables, five repricing EIPs each next to the plain fork, Cancun additions); every sequence over T of length <= L in one process, each element on a fresh EVM and equal pre-state: every transaction has exactly one serialisation across all contexts. (c) isolation: two live EVMs, 2 invocations each, all 6 interleavings: each EVM's views equal its solo views. (d) copies: every transaction on three copies of one live template state serialises as on a state built from scratch, and the template reads the same afterwards. non-trivial = distinct executions in which a map with >= 2 entries was iterated with a non-zero offset, or histories of length >= 2",
 		Assumptions: []string{"maps with more than 8 entries (more than one bucket) are outside the enumerated offsets", "requires the vcheck-map binary (runtime overlay); without it only (b) and (c) run and the evidence says so"},
 		Bounds: func(t string) map[string]any {
 			return map[string]any{"exec_offset_deviation_bound": 1, "query_offset_deviation_bound": 2, "history_length": map[string]int{"quick": 3, "thorough": 4}[t], "transactions": len(c16Txs()), "map_hook": maphook.Enabled}
@@ -415,6 +423,10 @@ func init() {
 			// (c) isolation
 			if w.MineKey(fw.Hash("isolation")) {
 				c16Isolation(w, txs)
+			}
+			// (d) copies of one template state
+			if w.MineKey(fw.Hash("copies")) {
+				c16Copies(w, txs)
 			}
 			// (a) map order
 			if !maphook.Enabled {
@@ -483,6 +495,14 @@ func init() {
 						return []fw.Violation{{Sig: "history:" + diffClass(d), Detail: d, Case: raw}}
 					}
 				}
+			case "copies", "isolation":
+				tmp := fw.NewW("C16", 0, 1, "quick", 1)
+				if rp.Kind == "copies" {
+					c16Copies(tmp, txs)
+				} else {
+					c16Isolation(tmp, txs)
+				}
+				return tmp.Violations
 			}
 			return nil
 		},
@@ -490,6 +510,47 @@ func init() {
 }
 
 // c16Isolation: two live EVMs, two invocations each, every interleaving; each EVM's recorder must show only its own calls.
+// c16Copies: equal pre-states obtained the way a node obtains them - as copies of one live template state. Three
+// executions on three copies and one on a state built from scratch must serialise identically, and the template must
+// read the same before and after.
+func c16Copies(w *fw.W, txs []c16Tx) {
+	for ti := range txs {
+		tx := &txs[ti]
+		tmpl := world.NewState(tx.Case)
+		probe := func() string {
+			var sb strings.Builder
+			for _, a := range tx.Case.Accounts {
+				fmt.Fprintf(&sb, "%x:%s:%d ", a.Addr[18:], tmpl.GetBalance(a.Addr), tmpl.GetNonce(a.Addr))
+			}
+			return sb.String()
+		}
+		before := probe()
+		fresh := c16Run(tx, nil, false)
+		for i := 0; i < 3; i++ {
+			env := world.NewAOn(tx.Case, world.AOpts{}, tmpl.Copy())
+			obs := env.Invoke(tx.Case)
+			got := "panic: " + obs.Panic
+			if obs.Panic == "" {
+				got = c16Serialize(env, obs, tx, nil)
+			}
+			w.Evals++
+			w.Transitions++
+			h := fw.Hash("copies", tx.Name, fmt.Sprint(i))
+			w.State(h)
+			w.Nontrivial(h)
+			if got != fresh {
+				d := firstDiffLine(fresh, got)
+				w.Violate("copies:"+diffClass(d), fmt.Sprintf("transaction %q on copy %d of a template state differs from its execution on a state built from scratch: %s", tx.Name, i+1, d), c16Replay{Kind: "copies"})
+				break
+			}
+		}
+		if after := probe(); after != before {
+			w.Violate("copies:template_changed", fmt.Sprintf("executing %q on copies changed the template state they were copied from\nbefore: %s\nafter:  %s", tx.Name, before, after), c16Replay{Kind: "copies"})
+		}
+	}
+	w.Extra("copy_runs", int64(3*len(txs)))
+}
+
 func c16Isolation(w *fw.W, txs []c16Tx) {
 	pairs := [][2]int{{0, 1}, {0, 0}, {1, 6}, {7, 0}}
 	orders := [][]int{{0, 0, 1, 1}, {0, 1, 0, 1}, {0, 1, 1, 0}, {1, 0, 0, 1}, {1, 0, 1, 0}, {1, 1, 0, 0}}
